@@ -21,12 +21,12 @@ import tla
 from props import c01
 
 
-def write_cfg(ctx, name, npeers, ncids, ops, changes, downs, check=True):
-    lines = ["SPECIFICATION Spec", "CONSTANT NPEERS = %d" % npeers, "CONSTANT NCIDS = %d" % ncids,
+def write_cfg(ctx, name, npeers, ncids, ops, changes, downs, check=True, rotate=1):
+    lines = ["SPECIFICATION Spec", "CONSTANT NPEERS = %d" % npeers, "CONSTANT NCIDS = %d" % ncids, "CONSTANT BackupsRotate = %d" % rotate,
              "CONSTANT MaxOps = %d" % ops, "CONSTANT MaxChanges = %d" % changes, "CONSTANT MaxDowns = %d" % downs]
     if check:
         lines += ["INVARIANT TypeOK", "INVARIANT Agreement", "INVARIANT LastPeerStays", "INVARIANT ReadyImpliesSynced",
-                  "INVARIANT RemovedStops", "INVARIANT StoppedCanRestart", "PROPERTY NoOpHarmless", "PROPERTY PinsetKept",
+                  "INVARIANT RemovedStops", "INVARIANT StoppedCanRestart", "INVARIANT RemovedDataGone", "PROPERTY NoOpHarmless", "PROPERTY PinsetKept",
                   "PROPERTY UnackedFaultyNotCommitted"]
     fn = "RaftMembership_x_%s.cfg" % name
     with open(os.path.join(ctx.specdir(), fn), "w") as f:
@@ -38,7 +38,8 @@ def step_of(st):
     last = st["last"]
     return {"a": last["a"], "at": last["at"], "p": last["p"], "c": last["c"], "out": last["out"],
             "members": sorted(st["members"]), "status": st["status"], "data": st["data"], "pins": sorted(st["pins"]),
-            "fsm": {p: sorted(v) for p, v in st["fsm"].items()}, "view": {p: sorted(v) for p, v in st["view"].items()}}
+            "fsm": {p: sorted(v) for p, v in st["fsm"].items()}, "view": {p: sorted(v) for p, v in st["view"].items()},
+            "bk": st["cnt"]["bk"]}
 
 
 def kinds(steps):
@@ -125,12 +126,12 @@ def scripts_from_graph(ctx, rng, cfg, n, max_len, want=None, prop="C17"):
     return out
 
 
-def goal_scripts(ctx, goals, consts, prop, first_id):
+def goal_scripts(ctx, goals, consts, prop, first_id, rotate=1):
     """TLC witnesses of (negated) reachability goals as scripts."""
     import vcheck
     out = []
     for g in goals:
-        cfg = write_cfg(ctx, "goal_" + g, *consts, check=False)
+        cfg = write_cfg(ctx, "goal_%s_%d" % (g, rotate), *consts, check=False, rotate=rotate)
         with open(os.path.join(ctx.specdir(), cfg), "a") as f:
             f.write("PROPERTY %s\n" % g)
         r = ctx.tlc("RaftMembership.tla", cfg, workers=4, timeout=1200, count=False, expect_violation=True)
@@ -179,6 +180,12 @@ def concretise(ctx, rng, scripts):
         # network is cut before the entries after the snapshot arrive; it must not be ready in either window
         sc["ballast"] = 40
         sc["gatejoin"] = True
+    # raft data_folder left unset (BaseDir set, as after "ipfs-cluster-service init") on removal scripts
+    dflt = [sc for sc in rm_ok if "gatejoin" not in sc]
+    rng.shuffle(dflt)
+    for sc in dflt[:max(1, len(dflt) // 2)]:
+        sc["defaultfolder"] = True
+    ctx.extra["default_data_folder_scripts"] = len(dflt[:max(1, len(dflt) // 2)])
     ctx.extra["commit_retries_0_scripts"] = len(zero)
     ctx.extra["commit_retries_1_scripts"] = len(one)
     ctx.extra["slow_joiner_scripts"] = len(slow[:1 if ctx.quick() else 4])
@@ -227,6 +234,14 @@ def run(ctx):
     gen_cfg = write_cfg(ctx, "gen", 3, 2, 3, 4, 1, check=False)
     scripts = scripts_from_graph(ctx, rng, gen_cfg, 24 if ctx.quick() else 500, 8)
     concretise(ctx, rng, scripts)
+    # the same node removed BackupsRotate + 1 times (re-joined in between): the clean-up has to rotate and
+    # finally drop the oldest backup; a few pins first so that every cycle has a snapshot to back up
+    for rot in ((1,) if ctx.quick() else (1, 2)):
+        for sc in goal_scripts(ctx, ["NoRotationDropsOldest"], (3, 2, 2, 2 * (rot + 1), 1), "C17", 900 + rot, rotate=rot):
+            sc["rotate"] = rot
+            sc["ballast"] = 3
+            sc["defaultfolder"] = rot == 2
+            scripts.append(sc)
     ctx.log("selected %d scripts covering %s" % (len(scripts), ctx.extra.get("membership_kinds_covered")))
     run_member_driver(ctx, scripts, "C17", "c17", 8)
 
